@@ -14,6 +14,16 @@ EVIDENCE = os.path.join(VERIF, 'evidence')
 REPLAY = os.path.join(VERIF, 'replay')
 
 
+def brief(ev):
+    d = {}
+    for k, v in ev.items():
+        if isinstance(v, list) and len(v) > 16:
+            d[k] = '[%d bytes]' % len(v)
+        else:
+            d[k] = v
+    return json.dumps(d, sort_keys=True)[:420]
+
+
 class Ctx(object):
     def __init__(self, prop, tier, seed, only_cfgs=None):
         self.prop = prop
@@ -52,6 +62,9 @@ class Ctx(object):
         """A rejected event.  occurrences: [(cfgname, provenance-string)].
         Each occurrence either matches an open known finding or is a violation."""
         self.ev['rejected_facts'] += 1
+        if os.environ.get('AVEL_REJLOG'):
+            with open(os.environ['AVEL_REJLOG'], 'a') as f:
+                f.write(json.dumps({'prop': self.prop, 'event': event, 'occ': occurrences}) + '\n')
         unmatched = []
         for cfgname, prov in occurrences:
             cfg = self.cfg_by_name(cfgname.split('/')[0])
@@ -72,7 +85,8 @@ class Ctx(object):
             self.add_violation(event, unmatched, extra)
 
     def add_violation(self, event, occurrences, extra=None):
-        sig = '%s/%s/%s' % (event.get('o') or event.get('e'), event.get('k', ''), occurrences[0][0])
+        prov = (occurrences[0][1] or '::').split(':')
+        sig = '%s/%s/%s/%s/%s' % (event.get('o') or event.get('e'), event.get('k', ''), prov[0], prov[-1], occurrences[0][0])
         for v in self.violations:
             if v['sig'] == sig:
                 v['count'] += 1
@@ -105,10 +119,10 @@ class Ctx(object):
         for k, d in sorted(self.kf_hits.items()):
             ev, cfgname, prov = d['example']
             print('KNOWN-FINDING: property=%s %s %s (%d rejected events; e.g. %s in %s %s)' % (
-                self.prop, k, d['finding'].what, d['n'], json.dumps(ev, sort_keys=True)[:200], cfgname, prov))
+                self.prop, k, d['finding'].what, d['n'], brief(ev)[:260], cfgname, prov))
         for v in self.violations:
             print('VIOLATION property=%s replay=%s' % (self.prop, v['path']))
-            print('  %d rejected event(s) like %s at %s' % (v['count'], json.dumps(v['event'], sort_keys=True)[:300], v['occ'][:3]))
+            print('  %d rejected event(s) like %s at %s' % (v['count'], brief(v['event']), v['occ'][:3]))
         cov = dict(self.ev)
         if extra_cov:
             cov.update(extra_cov)
@@ -131,7 +145,7 @@ class Ctx(object):
 # ----------------------------------------------------------------------
 # generic lane-fact check
 # ----------------------------------------------------------------------
-def lane_facts(ctx, source, family, groups, cfg_filter=None, extra_defs=(), args_extra=(), module='TraceFacts'):
+def lane_facts(ctx, source, family, groups, cfg_filter=None, extra_defs=(), args_extra=(), module='TraceFacts', env_extra=None):
     """Build <source> for every configuration x group, run family, TLC-judge the
     distinct facts, classify rejections.  Returns number of facts judged."""
     cfgs = [c for c in ctx.cfgs if cfg_filter is None or cfg_filter(c)]
@@ -156,7 +170,7 @@ def lane_facts(ctx, source, family, groups, cfg_filter=None, extra_defs=(), args
         ctx.ev['facts_offered_by_drivers'] += m.total_offered
         ctx.log('group %s: %d distinct facts from %d outputs (%d distinct outputs); TLC ...' % (
             g, len(m.lines), len(m.files), len(m.classes)))
-        judged, rejected = facts.validate(m, ctx.scratch, '%s_g%s' % (family, g), module=module)
+        judged, rejected = facts.validate(m, ctx.scratch, '%s_g%s' % (family, g), module=module, env_extra=env_extra)
         total_judged += judged
         ctx.ev['facts_judged_by_tlc'] += judged
         ctx.ev['states'] += judged + 1          # one state of the trace machine per consumed fact
@@ -179,3 +193,58 @@ def lane_facts(ctx, source, family, groups, cfg_filter=None, extra_defs=(), args
             for k in ('facts', 'prov'):
                 pass
     return total_judged
+
+
+# ----------------------------------------------------------------------
+# ordered traces (register programs, histories): one file per (config, unit)
+# ----------------------------------------------------------------------
+def ordered_traces(ctx, source, family, groups, module, suffix, cfg_filter=None, extra_defs=(), libs=(), extra=()):
+    """Build and run <source>; the driver writes <prefix>.<unit><suffix> ndjson traces.
+    Byte-identical traces (same program, same observations) are validated once.
+    Returns number of distinct traces validated."""
+    import glob
+    import hashlib
+    cfgs = [c for c in ctx.cfgs if cfg_filter is None or cfg_filter(c)]
+    jobs = []
+    for c in cfgs:
+        for g in groups:
+            jobs.append(('%s/%s' % (c.name, g), c, source, ['VH_GROUP=%s' % g] + list(extra_defs), list(extra), list(libs)))
+    ctx.log('building %d driver binaries (%s) ...' % (len(jobs), source))
+    exes = build.build_many(jobs)
+    rjobs = []
+    for tag, exe in exes.items():
+        pre = os.path.join(ctx.scratch, '%s_%s' % (family, tag.replace('/', '_')))
+        rjobs.append((tag, exe, [family, ctx.tier, str(ctx.seed)], pre))
+    ctx.log('running drivers (%s) ...' % family)
+    facts.run_drivers(rjobs)
+    classes = {}            # sha -> [(tag, unit, path)]
+    for tag, exe, args, pre in rjobs:
+        for p in sorted(glob.glob(pre + '.*' + suffix)):
+            unit = os.path.basename(p)[len(os.path.basename(pre)) + 1:-len(suffix)]
+            with open(p, 'rb') as f:
+                sha = hashlib.sha1(f.read()).hexdigest()
+            classes.setdefault(sha, []).append((tag, unit, p))
+    paths = [v[0][2] for v in classes.values()]
+    ctx.log('%d traces, %d distinct; TLC (%s) ...' % (sum(len(v) for v in classes.values()), len(paths), module))
+    res = tlc.validate_chunks(module, paths, ctx.scratch, family + '_tr', parallel=16)
+    for (cnt, rej), members in zip(res, classes.values()):
+        ctx.ev['states'] += cnt + 1
+        ctx.ev['transitions'] += cnt + 1
+        ctx.ev['driver_outputs'] += len(members)
+        ctx.ev['trace_events_judged_by_tlc'] = ctx.ev.get('trace_events_judged_by_tlc', 0) + cnt
+        path = members[0][2]
+        if rej:
+            with open(path) as f:
+                lines = f.read().split('\n')
+            for r in rej:
+                ev = json.loads(lines[r - 1])
+                occ = [(t, '%s:%d:trace' % (u, r)) for t, u, _ in members]
+                ctx.classify(ev, occ)
+        else:
+            ctx.ev['traces_validated_against_impl'] += len(members)
+        if len(ctx.ev['samples']) < 12:
+            with open(path) as f:
+                for i, ln in enumerate(f):
+                    if i in (1, 7):
+                        ctx.ev['samples'].append(json.loads(ln))
+    return len(paths)
